@@ -30,7 +30,8 @@ static Args make(const JV& c, int n, Rng& rng) {
 	}
 	if (cls("nsmooth") == "ndim") a.smooth.assign(n, 1e-3); else if (cls("nsmooth") == "other") a.smooth.assign(n == 1 ? 3 : n + 1, 1e-3);
 	if (cls("npen") == "ndim") a.pen.assign(n, 1); else if (cls("npen") == "other") a.pen.assign(n == 1 ? 3 : n + 1, 1);
-	if (cls("penorder") == "above") a.pen[0] = ord[0] + 1 + (uint32_t)rng.below(3);
+	if (cls("penorder") == "above") a.pen[0] = ord[0] + 1 + (uint32_t)rng.below(3); else if (cls("penorder") == "huge") a.pen[0] = 0xFFFFFFFFu;
+	if (c.has("order") && !a.order.empty()) { if (cls("order") == "huge31") a.order[0] = 0x7FFFFFFFu; else if (cls("order") == "huge32") a.order[0] = 0xFFFFFFFFu; else if (cls("order") == "wrap") a.order[0] = 0x80000003u; }
 	if (cls("monodim") == "valid") a.monodim = 0; else if (cls("monodim") == "ndim") a.monodim = n; else if (cls("monodim") == "huge") a.monodim = 1000000;
 	return a;
 }
@@ -62,7 +63,7 @@ static std::string run_one(const JV& combo, int n, int api, uint64_t seed) {
 		try { t.fit(data, a.weights, a.coords, a.order, a.knots, a.smooth, a.pen, a.monodim, false); outcome = "complete"; }
 		catch (std::exception&) { outcome = "reject"; }
 	}
-	if (outcome == "complete" && combo["penorder"].str() == "above") {
+	if (outcome == "complete" && combo["penorder"].str() != "ok") {
 		Table u; std::vector<double> zero(a.smooth.size(), 0.0); bool ok = true;
 		try { std::vector<uint32_t> p1(a.pen.size(), 1); u.fit(data, a.weights, a.coords, a.order, a.knots, zero, p1, a.monodim, false); } catch (std::exception&) { ok = false; }
 		if (ok && u.get_ncoeffs() == t.get_ncoeffs()) { double md = 0, mx = 0; for (uint64_t i = 0; i < t.get_ncoeffs(); i++) { md = std::max(md, (double)std::fabs(t.get_coefficients()[i] - u.get_coefficients()[i])); mx = std::max(mx, (double)std::fabs(u.get_coefficients()[i])); } if (md <= 1e-4 * (1 + mx)) outcome = "complete-unpenalised"; }
